@@ -24,6 +24,8 @@ LEAN_MODULES = ["FimVerif.Proofs.C12"]
 P = "FimVerif.C12."
 THEOREMS = [P + t for t in (
     "delegations_roundtrip", "reserved_name_rejected", "constructed_pool_name", "det_roundtrip",
+    # the reserved-name test is equality with the generated constant at every site (constructors, add_pool, decoder)
+    "sentinel_exact_sites", "sentinel_exact_decode",
     "rejects_mixed_details", "rejects_mixed_container", "rejects_mixed_in_call", "rejects_mixed_pools", "decode_rejects_other_type",
     "add_delegations_accepts_iff", "rejects_duplicate_id", "rejects_duplicate_in_call", "rejects_duplicate_across_calls",
     "add_delegations_state", "rejects_details_on_reference", "decode_rejects_details_on_reference",
@@ -40,7 +42,9 @@ THEOREMS = [P + t for t in (
 TRUSTED_BASE = [
     "gen/delegconsts.py: key/sentinel constants by import; the strings to_json/from_json (and the module functions they call) can use "
     "as keys, resolved by value through any alias, are exactly these constants; behavioural probes of the dispatch (to_json writes the "
-    "model's keys for every DelegationFormat member, from_json looks at FIELD_POOL_ID before FIELD_POOL, sentinels)",
+    "model's keys for every DelegationFormat member, from_json looks at FIELD_POOL_ID before FIELD_POOL, sentinels; the reserved-name test "
+    "of Delegation(...), Pool(...), add_pool, to_json and from_json is EQUALITY with SINGLE_POOL_NAME: 13 names that start / end with, "
+    "contain, double, pad or look like it, or spell NEO4j_NONE, are ordinary pool names at every site)",
     "gen/fields.py (C03's translator): field lists, defaults, _set_fields guard and to_dict drop rule of Capacities / Labels",
     "Model/Deleg.lean mirrors by hand Delegation/Delegations/Pool/Pools (constructor, set_details, add_delegations, to_json, from_json, "
     "add_pool, get_pool_by_id, validate_pool, build_index_by_delegation_id, generate_delegations_by_node_id, incorporate_delegation) and "
@@ -62,7 +66,10 @@ ASSUMPTIONS = [
     "label values offered to the model are ones the Labels validators accept",
     "a Delegation object is not mutated after it was handed to add_delegations (the container aliases it; the model stores values)",
 ]
-RULE = ("delegation sets of 1..5 entries over 4 ids x 3 formats x capacity/label details (edge ints, validated and free label strings, lists), "
+RULE = ("pool names and delegation ids in every stream are drawn about every third time from an alphabet related to the sentinels (the "
+        "reserved name as prefix / suffix / infix / doubled / padded, unicode look-alikes, spellings of None, empty / blank, ids that are "
+        "prefixes of one another; deterministic corner sets for each of them); "
+        "delegation sets of 1..5 entries over 4 ids x 3 formats x capacity/label details (edge ints, validated and free label strings, lists), "
         "every order of the formats, built through the API and decoded from mutated JSON; add_delegations calls of 0..4 arguments with a "
         "duplicate / other-type argument at every position; pool families of 1..4 pools x 5 nodes x 3 delegation ids through both "
         "construction paths, read back in dictionary order and in given node orders (all orders for <= 3 nodes); per-node delegation lists for "
@@ -84,6 +91,77 @@ FREE_STR = ["p1", "", " ", "HundredGigE0/0/0/5", "a\"b", "back\\slash", "line\nb
 POOL_NAMES = ["p1", "p2", "shared_pool", "pool-x", "p1", "p2", "", "ü-pool", "P1", "pool", "pool_id"]
 IDS = ["del1", "del2", "primary", "dél", "", "pool_id"]
 NODES = ["n1", "n2", "n3", "n4", "n5"]
+_ADV = {}
+
+
+def adv():
+    """pool NAMES and delegation IDS from alphabets related to the codec's sentinels (SINGLE_POOL_NAME marks a single-resource
+    delegation in the text, NEO4j_NONE an absent property): the sentinel as prefix / suffix / infix / doubled / padded, its
+    unicode look-alikes, the spellings of None, the empty and blank name; ids additionally the sentinel itself (an id is never
+    reserved) and ids that are prefixes / extensions of one another.  Only the exact name SINGLE_POOL_NAME is reserved (and only for
+    pools), so every one of these must behave like any other name in every stream (cf. seeded C12-r4-1)."""
+    if not _ADV:
+        K = mods()[2]
+        S, N = K.SINGLE_POOL_NAME, K.NEO4j_NONE
+        rel = [S + "mgmt", S + "x", "x" + S, S + S, " " + S, S + " ", "a" + S + "b", S + "\u200b", "\uff3f", "\u2017", "\ufe4d", "x\u0332",
+               S.upper() + "1", N, N.lower(), N.upper(), N + " ", " " + N, S + N, N + S, "null", "", " ", K.FIELD_POOL, K.FIELD_POOL_ID + S]
+        _ADV["pools"] = [x for x in dict.fromkeys(rel) if x != S]
+        _ADV["ids"] = list(dict.fromkeys([S] + rel + ["del1", "del", "del11", "del1 ", "Del1", "del1" + S, S + "del1"]))
+    return _ADV
+
+
+def name_class(names):
+    """how the names of a failing case relate to the sentinels (part of the signature)"""
+    K = mods()[2]
+    S, N = K.SINGLE_POOL_NAME, K.NEO4j_NONE
+    names = [n for n in names if isinstance(n, str)]
+    if any(S in n and n != S for n in names):
+        return ":name-contains-single-sentinel"
+    if any(n.strip().lower() == N.lower() for n in names):
+        return ":name-spelled-none"
+    if any(n.strip() == "" for n in names):
+        return ":name-blank"
+    return ""
+
+
+def names_in(x, out=None):
+    """the pool names / delegation ids the specifications inside a request or case carry: [("pool" | "did", name)]"""
+    out = [] if out is None else out
+    if isinstance(x, dict):
+        if "fmt" in x:                         # delegation specification
+            out += [("pool", x.get("pool")), ("did", x.get("id"))]
+        elif "mode" in x:                      # pool specification
+            out += [("pool", x.get("id")), ("did", x.get("deleg"))]
+        else:
+            if "delegation" in x:              # topology specification
+                out.append(("did", x["delegation"]))
+            for v in x.values():
+                names_in(v, out)
+    elif isinstance(x, (list, tuple)):
+        for v in x:
+            names_in(v, out)
+    return out
+
+
+def count_names(res, x, where):
+    """evidence: how many cases of a stream carry a pool name / delegation id of the adversarial alphabet"""
+    A = adv()
+    got = names_in(x)
+    if any(k == "pool" and v in A["pools"] for k, v in got):
+        res.count("adv-pool-name:" + where)
+    if any(k == "did" and v in A["ids"] and not str(v).startswith("del") for k, v in got):
+        res.count("adv-delegation-id:" + where)
+
+
+def pick_pool(rng):
+    return rng.choice(adv()["pools"]) if rng.random() < 0.35 else rng.choice(POOL_NAMES)
+
+
+def id_choices(rng, base, k=3):
+    """the ids a generator draws from: the ordinary ones, or (about every third time) ids of the adversarial alphabet"""
+    if rng.random() < 0.35:
+        return rng.sample(adv()["ids"], k)
+    return list(base)
 
 
 def mods():
@@ -384,13 +462,14 @@ def other(ty):
 
 def gen_dspecs(rng, cty, wellformed=False):
     n = rng.randint(1, 5)
-    ids = rng.sample(IDS, min(n, len(IDS))) if (wellformed or rng.random() < 0.8) else [rng.choice(IDS[:3]) for _ in range(n)]
+    idpool = list(dict.fromkeys(IDS + id_choices(rng, [], 5)))
+    ids = rng.sample(idpool, min(n, len(idpool))) if (wellformed or rng.random() < 0.8) else [rng.choice(idpool[:3]) for _ in range(n)]
     out = []
     for i in ids:
         fmt = rng.choice(["SinglePool", "PoolDefinition", "PoolReference"])
         s = {"ty": cty, "id": i, "fmt": fmt, "pool": None, "det": None}
         if fmt != "SinglePool":
-            s["pool"] = rng.choice(POOL_NAMES)
+            s["pool"] = pick_pool(rng)
         if fmt != "PoolReference":
             s["det"] = gen_det(rng, cty, allow_empty=not wellformed)
         if not wellformed:
@@ -408,7 +487,7 @@ def gen_dspecs(rng, cty, wellformed=False):
             elif k < 0.18 and fmt != "SinglePool":
                 s["pool"] = None
             elif k < 0.21 and fmt == "SinglePool":
-                s["pool"] = rng.choice(POOL_NAMES)
+                s["pool"] = pick_pool(rng)
             elif k < 0.24 and fmt != "PoolReference":
                 s["det"] = gen_bad_det(rng, cty)
             elif k < 0.27 and fmt == "PoolDefinition":
@@ -447,6 +526,13 @@ def corner_dspecs():
         for a, b in itertools.product(FORMATS, FORMATS):
             out.append((cty, [mk[a](0), mk[b](1)]))
         out.append((cty, [mk["PoolDefinition"](0), mk["SinglePool"](1), mk["PoolReference"](2), mk["SinglePool"](3), mk["SinglePool"](4)]))
+        # names / ids that only resemble the sentinels: a definition and a reference of such a pool next to a real single-resource
+        # delegation, under ordinary ids and under ids of the same alphabet (cf. seeded C12-r4-1)
+        A = adv()
+        for i, nm in enumerate(A["pools"]):
+            out.append((cty, [dict(three[0], id="s"), dict(three[1], id="d", pool=nm), dict(three[2], id="r", pool=nm)]))
+            i1, i2, i3 = (A["ids"][(3 * i + j) % len(A["ids"])] for j in range(3))
+            out.append((cty, [dict(three[1], id=i1, pool=nm), dict(three[0], id=i2), dict(three[2], id=i3, pool=nm)]))
         # empty details (Capacities() / Labels(): to_dict() is None) on a single / a definition
         e = [cty, to_wire({})]
         out.append((cty, [dict(three[0], det=e)]))
@@ -471,7 +557,7 @@ def mutate_json(rng, obj, cty, K):
         if K.FIELD_POOL in v:
             v[dk] = un_wire(gen_det(rng, cty)[1])                # reference carrying details
         else:
-            v[K.FIELD_POOL] = rng.choice(POOL_NAMES)             # both pool_id and pool
+            v[K.FIELD_POOL] = pick_pool(rng)                     # both pool_id and pool
     elif k < 0.42:
         v[ok_] = un_wire(gen_det(rng, other(cty))[1])            # the other type's content next to ours
     elif k < 0.47:
@@ -493,7 +579,12 @@ def mutate_json(rng, obj, cty, K):
         v["extra"] = rng.choice([1, "x", None, {"a": 1}])
     elif k < 0.88:
         if K.FIELD_POOL_ID in v:
-            v[K.FIELD_POOL_ID] = K.SINGLE_POOL_NAME if v[K.FIELD_POOL_ID] != K.SINGLE_POOL_NAME else "p9"
+            if rng.random() < 0.5:
+                v[K.FIELD_POOL_ID] = rng.choice(adv()["pools"])          # a name that only resembles the sentinel
+            else:
+                v[K.FIELD_POOL_ID] = K.SINGLE_POOL_NAME if v[K.FIELD_POOL_ID] != K.SINGLE_POOL_NAME else "p9"
+        elif K.FIELD_POOL in v:
+            v[K.FIELD_POOL] = rng.choice(adv()["pools"])
     elif k < 0.94:
         # key order inside the entry must not matter
         o[e] = dict(reversed(list(v.items())))
@@ -504,7 +595,8 @@ def mutate_json(rng, obj, cty, K):
 
 def gen_pspecs(rng, cty, wellformed=False):
     k = rng.randint(1, 4)
-    pids = rng.sample(["p1", "p2", "shared_pool", "ü-pool"], k)
+    pids = rng.sample(adv()["pools"] if rng.random() < 0.35 else ["p1", "p2", "shared_pool", "ü-pool"], k)
+    dids = id_choices(rng, ["del1", "del2", "primary"])
     out = []
     for pid in pids:
         on = rng.choice(NODES)
@@ -512,7 +604,7 @@ def gen_pspecs(rng, cty, wellformed=False):
         mode = "ctor" if rng.random() < 0.6 else "set"
         if wellformed:
             fr = [n for n in fr if n != on] or [rng.choice([n for n in NODES if n != on])]
-        s = {"ty": cty, "id": pid, "deleg": rng.choice(["del1", "del2", "primary"]), "on": on, "for": fr,
+        s = {"ty": cty, "id": pid, "deleg": rng.choice(dids), "on": on, "for": fr,
              "det": gen_det(rng, cty, allow_empty=not wellformed), "mode": mode}
         if rng.random() < 0.3:
             # the same reference set reached through several setter calls instead of one list
@@ -577,6 +669,15 @@ def corner_pspecs():
             # one node defines several pools and references several others
             (cty, [pool("pa", "d1", "n1", ["n2"]), pool("pb", "d2", "n1", ["n2"], d2), pool("pc", "d3", "n2", ["n1"]), pool("pd", "d4", "n2", ["n1"], d2)]),
             (cty, [pool("_", "del1", "node1", ["node2"])]),
+        ]
+        # pools whose names / delegation ids only resemble the sentinels, three at a time sharing nodes
+        A = adv()
+        for i in range(0, len(A["pools"]) - 2, 3):
+            a, b, c = A["pools"][i:i + 3]
+            i1, i2, i3 = (A["ids"][(i + j) % len(A["ids"])] for j in range(3))
+            out.append((cty, [pool(a, i1, "n1", ["n2", "n3"]), pool(b, i2, "n2", ["n3", "n1"], d2), pool(c, i3, "n3", ["n1", "n2"])]))
+            out.append((cty, [pool(a, i1, "n1", ["n2"]), pool(b, i1, "n3", ["n4"], d2), pool(c, i2, "n1", ["n4"])]))
+        out += [
             (cty, [pool("pool1", "del1", "node1", ["node2"], det=None)]),
             (cty, [pool("pool1", None, "node1", ["node2"])]),
             (cty, [pool("pool1", "del1", "node1", ["node2"], ty=other(cty))]),
@@ -614,7 +715,7 @@ def gen_inc(rng, cty):
             elif r2 < 0.35 and nodes:
                 n = rng.choice(nodes)
                 for s in n[2]:
-                    s["id"] = rng.choice(["del1", "del2", "other"])   # references under another delegation id
+                    s["id"] = rng.choice(["del1", "del2", "other"] + adv()["ids"][:8])   # references under another delegation id
                     break
             elif r2 < 0.45 and nodes:
                 nodes.pop(rng.randrange(len(nodes)))
@@ -624,12 +725,13 @@ def gen_inc(rng, cty):
                     pass
             return nodes
     nodes = []
+    two = rng.sample(adv()["pools"], 2) if rng.random() < 0.35 else ["p1", "p2"]
     for n in rng.sample(NODES, rng.randint(1, 4)):
         c = cty if rng.random() < 0.93 else other(cty)
         specs = gen_dspecs(rng, c, wellformed=rng.random() < 0.7)
         for s in specs:
             if s["pool"] is not None and rng.random() < 0.7:
-                s["pool"] = rng.choice(["p1", "p2"])
+                s["pool"] = rng.choice(two)
         if len(specs) >= 2 and rng.random() < 0.4:
             # the same delegations handed over in several incorporate calls for the node instead of one
             cut = rng.randrange(1, len(specs))
@@ -651,7 +753,7 @@ def gen_ann(rng, cty):
             used |= set([op[1]] if isinstance(op[1], str) else op[1])
     free = [n for n in NODES + ["n6", "n7"] if n not in used]
     dels = []
-    did = rng.choice(["del1", "primary"])
+    did = rng.choice(id_choices(rng, ["del1", "primary"], 2))
     for n in rng.sample(free, rng.randint(0, len(free))):
         dels.append([n, cty, [{"ty": cty, "id": did, "fmt": "SinglePool", "pool": None, "det": gen_det(rng, cty, allow_empty=rng.random() < 0.1)}]])
     r = rng.random()
@@ -706,7 +808,7 @@ def shape_calls(cty, shape):
 
 def gen_calls(rng, cty):
     calls = []
-    ids = ["a", "b", "c", "d", "e", "f"]
+    ids = ["a", "b", "c", "d", "e", "f"] if rng.random() < 0.65 else rng.sample(adv()["ids"], 6)
     for _ in range(rng.randint(1, 3)):
         n = rng.randint(0, 4)
         pick = rng.sample(ids, n) if rng.random() < 0.6 else [rng.choice(ids) for _ in range(n)]
@@ -883,6 +985,7 @@ def correspondence(ctx, res):
             res.count("%s:%s" % (r[0], i[0] if i[0] == "ok" else "err:" + i[1]))
         if nontrivial(r):
             res.nontrivial.add(canon(r))
+        count_names(res, r, r[0])
         request_verdict(r, i, res)
         mj = json.loads(m)
         if mj == ["err", "unmodelled"]:
@@ -967,7 +1070,8 @@ def check_codec(cty, specs, res):
             # exactly the reserved-name confusion and nothing else
             sentinel_only.append(k)
             continue
-        res.violation("C12:codec:" + "+".join(diffs), "%s of a delegation differ(s) after the round trip" % "/".join(diffs), case,
+        res.violation("C12:codec:" + "+".join(diffs) + name_class([d.pool_id] if "pool" in diffs or "format" in diffs else [d.delegation_id]),
+                      "%s of a delegation differ(s) after the round trip" % "/".join(diffs), case,
                       expected=deleg_canon(d, cl), observed=deleg_canon(b, cl))
     if sentinel_only:
         res.violation("C12:codec:definition-of-pool-named-single-sentinel",
@@ -1380,7 +1484,8 @@ def check_pools(cty, fam, res, order_rng=None):
         if [g[0] for g in got] == [w[0] for w in want]:
             what = next(nm for i, nm in enumerate(["id", "type", "delegation-id", "defined-on", "defined-for", "details"])
                         if any(g[i] != w[i] for g, w in zip(got, want)))
-        res.violation("C12:pools:roundtrip:%s" % what, "pools read back differ (%s)" % what, case, expected=want, observed=got)
+        odd = [w[0] for w in want if w not in got] + [w[2] for w in want if w not in got]
+        res.violation("C12:pools:roundtrip:%s%s" % (what, name_class(odd)), "pools read back differ (%s)" % what, case, expected=want, observed=got)
         return
     for w, p in zip(sorted(ps.pool_by_id.items()), sorted(q.pool_by_id.items())):
         if not det_eq(w[1].pool_details, p[1].pool_details):
@@ -1409,17 +1514,20 @@ def gen_topo_adv(rng):
 def gen_topo_spec(rng, fixed=False):
     nports = 4 if fixed else rng.randint(3, 6)
     ports = ['SWP%d' % i for i in range(nports)]
-    did = "primary" if fixed else rng.choice(["primary", "del1", "dél"])
+    did = "primary" if fixed else rng.choice(id_choices(rng, ["primary", "del1", "dél"]))
     fams = {}
     for cty in TYPES:
         k = 1 if fixed else rng.randint(0, 2)
         free = list(ports)
         fam = []
+        names = ["%s-pool%d" % (cty.lower(), j) for j in range(k)]
+        if not fixed and rng.random() < 0.35:
+            names = rng.sample(adv()["pools"], k)
         for j in range(k):
             if len(free) < 2:
                 break
             mine = [free.pop(0) for _ in range(min(len(free), 2 if fixed else rng.randint(2, 3)))]
-            fam.append({"ty": cty, "id": "%s-pool%d" % (cty.lower(), j), "deleg": did, "on": mine[0], "for": mine,
+            fam.append({"ty": cty, "id": names[j], "deleg": did, "on": mine[0], "for": mine,
                         "det": gen_det(rng, cty, allow_empty=False) if not fixed else
                         (["CAPACITY", to_wire({"bw": 100})] if cty == "CAPACITY" else ["LABEL", to_wire({"vlan_range": "100-200"})]),
                         "mode": "ctor"})
@@ -1647,6 +1755,7 @@ def oracle(ctx, res, n=None):
         res.evaluations += 1
         if len(specs) >= 2:
             res.nontrivial.add(canon(["codec", cty, specs]))
+        count_names(res, specs, "oracle-codec")
         check_codec(cty, specs, res)
         if i % 10 == 0:
             res.evaluations += 1
@@ -1660,10 +1769,13 @@ def oracle(ctx, res, n=None):
         if any(len(eff_for(p) - {p["on"]}) >= 2 for p in fam):
             res.nontrivial.add(canon(["pools", cty, fam]))
         res.count("pools:" + ("clash" if not clash_free(fam) else "clash-free"))
+        count_names(res, fam, "oracle-pools")
         check_pools(cty, fam, res, order_rng=rng if i % 2 else None)
     for i in range(ctx.scale(40, 400)):
         res.evaluations += 1
-        check_topology(gen_topo_spec(rng), res)
+        tspec = gen_topo_spec(rng)
+        count_names(res, tspec, "oracle-topology")
+        check_topology(tspec, res)
     res.sample({"oracle": "codec round trip, rejection rules, pools -> node delegations -> text -> pools, single_delegation on a substrate topology",
                 "example": ["pools", "LABEL", corner_pspecs()[0][1]]})
 
